@@ -33,7 +33,7 @@ ROW = {"recv_stderr": "recv", "send_stderr": "send", "recv": "recv", "recv_timeo
        "open_session": "open_channel", "global_request": "global_request",
        "renegotiate_keys": "renegotiate_keys", "auth_password": "auth_wait_for_response",
        "start_client": "start_client", "accept": "accept", "ensure_session": "ensure_session"}
-LOSSES = ["eof", "disconnect", "garbage", "local_close"]
+LOSSES = ["eof", "disconnect", "garbage", "local_close", "recv_error", "recv_errno"]
 PHASES = ["before", "after"]
 # "during": the call is made from inside the shutdown path, at every point of it that can be reached from outside
 REQ_APIS = ["exec_command", "invoke_shell", "get_pty", "invoke_subsystem", "request_x11"]
@@ -170,6 +170,10 @@ def scenario(api, loss, phase, T, seed):
                     peer._send_message(_disconnect_msg())
             elif loss == "garbage":
                 tsock.inject(rng.randbytes(4096))
+            elif loss == "recv_error":
+                tsock.fail_reads(OSError("link lost"))  # a socket-like object without errno
+            elif loss == "recv_errno":
+                tsock.fail_reads(ConnectionResetError(104, "Connection reset by peer"))
 
         res = {}
 
@@ -562,7 +566,8 @@ def proxy_case(mode, T):
 
 def run(ctx):
     lib_net.quiet_logging()
-    ctx.rule = ("every blocking API x loss mode (eof, peer DISCONNECT, garbage bytes, local close) x phase "
+    ctx.rule = ("every blocking API x loss mode (eof, peer DISCONNECT, garbage bytes, local close, recv() raising an "
+                "OSError with / without errno) x phase "
                 "(blocked before the loss / called after it / entered from inside the shutdown path after each of its "
                 "steps / channel request with the loss between its openness check and its wait) on real Transports over "
                 "a gated in-memory socket, "
